@@ -567,6 +567,38 @@ impl CertificateResolver {
     }
 }
 
+#[cfg(sozu_verif)]
+impl CertificateResolver {
+    /// Verification hook (compiled only with `--cfg sozu_verif`): a read-only
+    /// snapshot of the two private structures, so that a verification harness
+    /// can compare them with the name trie (`domains`, already public).
+    /// Returns `(name -> [(fingerprint, expiration)] in stored order,
+    /// fingerprint -> (names, expiration))`, both sorted by key.
+    #[allow(clippy::type_complexity)]
+    pub fn verif_snapshot(
+        &self,
+    ) -> (
+        Vec<(String, Vec<(Fingerprint, i64)>)>,
+        Vec<(Fingerprint, Vec<String>, i64)>,
+    ) {
+        let mut index: Vec<(String, Vec<(Fingerprint, i64)>)> = self
+            .name_fingerprint_idx
+            .iter()
+            .map(|(name, entries)| (name.to_owned(), entries.to_owned()))
+            .collect();
+        index.sort_by(|a, b| a.0.cmp(&b.0));
+        let mut store: Vec<(Fingerprint, Vec<String>, i64)> = self
+            .certificates
+            .iter()
+            .map(|(fingerprint, cert)| {
+                (fingerprint.to_owned(), cert.names.to_owned(), cert.expiration)
+            })
+            .collect();
+        store.sort_by(|a, b| a.0.cmp(&b.0));
+        (index, store)
+    }
+}
+
 // -----------------------------------------------------------------------------
 // MutexWrappedCertificateResolver struct
 
